@@ -279,30 +279,64 @@ def armedFor (n : Node) (idx : Nat) : Bool :=
   | some a => a.fab == idx
   | none => false
 
-/-- `FailSafe::expire` (failsafe.rs:186) on an armed context -/
-def expireArmed (cfg : Cfg) (n : Node) (a : Armed) (exp : Option Nat) : Node × Option String :=
-  -- fabrics.remove(fab_idx)?; fabrics.add_load(fab_idx, kv)?
-  let fr : Except String (List Fabric) :=
-    if a.fab = 0 then .ok n.fabrics
-    else if hasFabric n a.fab then
-      let fs := n.fabrics.filter (fun f => f.idx ≠ a.fab)
-      match n.kv.fabs.find? (fun f => f.idx = a.fab) with
-      | some f => if fs.length < cfg.maxFabrics then .ok (fs ++ [f]) else .error "ResourceExhausted"
-      | none => .ok fs
-    else .error "NotFound"
-  match fr with
-  | .error e => (n, some e)
+/-- `MatterState::purge_resumption_for_fabric`: drop the records of a gone fabric and, if there were
+any, store the purged cache at once.  `false` = the store call failed. -/
+def purgeResum (n : Node) (idx : Nat) : Node × Bool :=
+  if n.resum.any (fun r => r.fab = idx) then
+    let n := { n with resum := n.resum.filter (fun r => r.fab ≠ idx) }
+    let (n, bad) := kvTick n
+    if bad then (n, false) else (kvCommit n { n.kv with resum := .recs n.resum }, true)
+  else (n, true)
+
+/-- the fabric part of `FailSafe::expire`:
+`if fabrics.get(fab_idx).is_some() { fabrics.remove(fab_idx)? }; fabrics.add_load(fab_idx, kv)?` -/
+def rollbackFabrics (cfg : Cfg) (n : Node) (a : Armed) : Except String (List Fabric) :=
+  if a.fab = 0 then .ok n.fabrics
+  else
+    let fs := n.fabrics.filter (fun f => f.idx ≠ a.fab)
+    match n.kv.fabs.find? (fun f => f.idx = a.fab) with
+    | some f => if fs.length < cfg.maxFabrics then .ok (fs ++ [f]) else .error "ResourceExhausted"
+    | none => .ok fs
+
+/-- the session part of `FailSafe::expire`: sessions of the removed fabric go with it (the
+triggering one, if it is one of them, is only expired), then every PASE session -/
+def rollbackSessions (n : Node) (removed : Option Nat) (exp : Option Nat) : List Sess :=
+  let sess := match removed with
+    | some idx =>
+      let own := match exp with
+        | some e => if n.sessions.any (fun s => s.id = e ∧ s.mode.fab = idx) then some e else none
+        | none => none
+      removeForFabric n.sessions idx own
+    | none => n.sessions
+  removePase sess exp
+
+/-- `FailSafe::expire` (failsafe.rs:186) on an armed context; also returns the fabric the rollback
+removed (a not yet committed `AddNOC` fabric), which the callers purge the resumption cache for -/
+def expireArmed (cfg : Cfg) (n : Node) (a : Armed) (exp : Option Nat) : Node × Option String × Option Nat :=
+  match rollbackFabrics cfg n a with
+  | .error e => (n, some e, none)
   | .ok fs =>
+    let removed : Option Nat := if a.fab ≠ 0 ∧ !fs.any (fun f => f.idx = a.fab) then some a.fab else none
     let (nets, managed) := match n.kv.nets with
       | some (l, m) => (l, m)
       | none => ([], false)
     ({ n with fabrics := fs, nets := nets, managed := managed,
-              sessions := removePase n.sessions exp, fs := none, bc := 0 }, none)
+              sessions := rollbackSessions n removed exp, fs := none, bc := 0 }, none, removed)
+
+/-- `expire` followed by what each of its three callers does with the removed fabric -/
+def expireAndPurge (cfg : Cfg) (n : Node) (a : Armed) (exp : Option Nat) : Node × Option String :=
+  match expireArmed cfg n a exp with
+  | (n, some e, _) => (n, some e)
+  | (n, none, none) => (n, none)
+  | (n, none, some idx) =>
+    match purgeResum n idx with
+    | (n, true) => (n, none)
+    | (n, false) => (n, some "NoSpace")
 
 def expire (cfg : Cfg) (n : Node) (exp : Option Nat) : Node × Option String :=
   match n.fs with
   | none => (n, none)
-  | some a => expireArmed cfg n a exp
+  | some a => expireAndPurge cfg n a exp
 
 /-- `Pase::check_comm_window_timeout` -/
 def windowTimeout (n : Node) : Node :=
@@ -311,17 +345,19 @@ def windowTimeout (n : Node) : Node :=
   | none => n
 
 /-- `InteractionModel::check_timeouts(exch)` (im.rs:687) -/
+def expSid (n : Node) (sid : Option Nat) : Option Nat :=
+  match sid with
+  | some s => (getSess n s).map (·.id)
+  | none => none
+
 def checkTimeouts (cfg : Cfg) (n : Node) (sid : Option Nat) : Node × Option String :=
-  let exp : Option Nat := match sid with
-    | some s => (getSess n s).map (·.id)
-    | none => none
-  let (n, e) : Node × Option String :=
+  let r : Node × Option String :=
     match n.fs with
-    | some a => if n.now ≥ a.armedAt + a.timeout then expireArmed cfg n a exp else (n, none)
+    | some a => if n.now ≥ a.armedAt + a.timeout then expireAndPurge cfg n a (expSid n sid) else (n, none)
     | none => (n, none)
-  match e with
-  | some e => (n, some e)
-  | none => (windowTimeout n, none)
+  match r.2 with
+  | some e => (r.1, some e)
+  | none => (windowTimeout r.1, none)
 
 def isNodeId (s : Nat) : Bool := 1 ≤ s && s ≤ 0xFFFFFFEFFFFFFFFF
 
@@ -334,16 +370,43 @@ def restartFrom (n : Node) (kv : KV) (hist : List KV) : Node :=
     | .absent => (kv, hist, [])
     | .recs l => (kv, hist, l)
     | .garbage => let kv' := { kv with resum := .absent }; (kv', kv' :: hist, [])
+  -- records whose fabric no longer exists are dropped, from the store too (lib.rs `startup`)
+  let rs' := rs.filter (fun r => kv.fabs.any (fun f => f.idx = r.fab))
+  let (kv, hist) : KV × List KV :=
+    if rs'.length ≠ rs.length then
+      let kv' := { kv with resum := .recs rs' }
+      (kv', kv' :: hist)
+    else (kv, hist)
   let (nets, managed) := match kv.nets with
     | some (l, m) => (l, m)
     | none => ([], false)
-  { fabrics := sortByIdx kv.fabs, sessions := [], resum := rs, fs := none, bc := 0, staged := 0,
+  -- (`Fabrics::load_persist` pushes in index order; the order of the table is not observable -
+  -- every lookup is by index, the dump sorts - so the stored list is taken as it is)
+  { fabrics := kv.fabs, sessions := [], resum := rs', fs := none, bc := 0, staged := 0,
     window := none, nets := nets, managed := managed, kv := kv, hist := hist, failIn := 0,
     now := n.now, nextSess := 0, nextGen := n.nextGen }
 
 /-! ## one operation: handler glue + the calls above.  Returns the new state and the status. -/
 
-def ok (n : Node) : Node × String := (n, "ok")
+/-- what the command answers: success, success with a fabric index (AddNOC), a new session, or an error name -/
+inductive Status
+  | ok
+  | okIdx (i : Nat)
+  | sess (id : Nat)
+  | err (e : String)
+deriving Repr, DecidableEq, Inhabited
+
+def Status.accepted : Status → Bool
+  | .err _ => false
+  | _ => true
+
+def Status.render : Status → String
+  | .ok => "ok"
+  | .okIdx i => s!"ok{i}"
+  | .sess id => s!"s{id}"
+  | .err e => e
+
+def ok (n : Node) : Node × Status := (n, .ok)
 
 /-- `Fabrics::reset_persist`: remove the fabric keys `i, i+1, …, hi-1`, one store call each -/
 def delFabricKeys (hi : Nat) : Nat → Nat → KV → List KV → KV × List KV
@@ -356,11 +419,11 @@ def delFabricKeys (hi : Nat) : Nat → Nat → KV → List KV → KV × List KV
     else delFabricKeys hi (i + 1) fuel cur acc
 
 /-- the part of a session-borne command that runs after the IM prologue -/
-def sessOp (cfg : Cfg) (n : Node) (sid : Nat) (mode : Mode) : Op → Node × String
+def sessOp (cfg : Cfg) (n : Node) (sid : Nat) (mode : Mode) : Op → Node × Status
   | .openW _ =>
     -- adm_comm.rs:215: window timeout check, opener = the fabric of the calling CASE session
     let n := windowTimeout n
-    if n.window.isSome then (n, "Busy")
+    if n.window.isSome then (n, .err "Busy")
     else
       let opener := if mode.fab ≠ 0 ∧ hasFabric n mode.fab then mode.fab else 0
       ok { n with window := some { opener := opener, expiry := n.now + 300 } }
@@ -370,51 +433,51 @@ def sessOp (cfg : Cfg) (n : Node) (sid : Nat) (mode : Mode) : Op → Node × Str
       let exp := if mode.isPase then some sid else none
       match expire cfg n exp with
       | (n, none) => ok n
-      | (n, some e) => (n, e)
+      | (n, some e) => (n, .err e)
     else
       match n.fs with
       | none =>
-        if n.window.isSome && mode.isCase then (n, "Busy")
+        if n.window.isSome && mode.isCase then (n, .err "Busy")
         else ok { n with fs := some { fab := mode.fab, flags := {}, timeout := secs, armedAt := n.now }, bc := secs }
       | some a =>
-        if a.fab ≠ mode.fab then (n, "NocInvalidFabricIndex")
+        if a.fab ≠ mode.fab then (n, .err "NocInvalidFabricIndex")
         else ok { n with fs := some { a with armedAt := n.now, timeout := secs }, bc := secs }
   | .csr _ upd =>
     match checkArmed n mode with
-    | some e => (n, e)
+    | some e => (n, .err e)
     | none =>
-      if upd && !mode.isCase then (n, "InvalidCommand")
+      if upd && !mode.isCase then (n, .err "InvalidCommand")
       else match n.fs with
-        | none => (n, "FailSafeRequired")
+        | none => (n, .err "FailSafeRequired")
         | some a =>
           match checkState a mode (fun _ => true) (fun f => f.addCsr || f.updCsr) false with
-          | some e => (n, e)
+          | some e => (n, .err e)
           | none =>
             let fl := if upd then { a.flags with updCsr := true } else { a.flags with addCsr := true }
             ok { n with fs := some { a with flags := fl } }
   | .root _ ca =>
     match checkArmed n mode with
-    | some e => (n, e)
+    | some e => (n, .err e)
     | none =>
       match n.fs with
-      | none => (n, "FailSafeRequired")
+      | none => (n, .err "FailSafeRequired")
       | some a =>
         match checkState a mode (fun _ => true) (fun f => f.root) false with
-        | some e => (n, e)
+        | some e => (n, .err e)
         | none => ok { n with staged := ca, fs := some { a with flags := { a.flags with root := true } } }
   | .addnoc _ ca fid node subj ser =>
     match checkArmed n mode with
-    | some e => (n, e)
+    | some e => (n, .err e)
     | none =>
       match n.fs with
-      | none => (n, "FailSafeRequired")
+      | none => (n, .err "FailSafeRequired")
       | some a =>
         match checkState a mode (fun f => f.root && f.addCsr) (fun f => f.addNoc || f.updCsr || f.updNoc) true with
-        | some e => (n, e)
+        | some e => (n, .err e)
         | none =>
-          if !isNodeId subj then (n, "NocInvalidAdminSubject")
-          else if ca ≠ n.staged then (n, "NocInvalidNoc")
-          else if n.fabrics.any (fun f => f.fid = fid && f.ca = n.staged) then (n, "NocFabricConflict")
+          if !isNodeId subj then (n, .err "NocInvalidAdminSubject")
+          else if ca ≠ n.staged then (n, .err "NocInvalidNoc")
+          else if n.fabrics.any (fun f => f.fid = fid && f.ca = n.staged) then (n, .err "NocFabricConflict")
           else
             let m := maxIdx n.fabrics
             -- `add_with_post_init`: max + 1, or the first free index once 254 is taken
@@ -422,9 +485,9 @@ def sessOp (cfg : Cfg) (n : Node) (sid : Nat) (mode : Mode) : Op → Node × Str
               if m < 254 then some (m + 1)
               else (List.range 255).find? (fun i => 1 ≤ i && !hasFabric n i)
             match idx? with
-            | none => (n, "NocFabricTableFull")
+            | none => (n, .err "NocFabricTableFull")
             | some idx =>
-              if n.fabrics.length ≥ cfg.maxFabrics then (n, "NocFabricTableFull")
+              if n.fabrics.length ≥ cfg.maxFabrics then (n, .err "NocFabricTableFull")
               else
                 let f : Fabric := { idx := idx, gen := n.nextGen, ca := n.staged, fid := fid, node := node,
                                     ser := ser, acl := [subj], grp := [], label := 0 }
@@ -434,165 +497,173 @@ def sessOp (cfg : Cfg) (n : Node) (sid : Nat) (mode : Mode) : Op → Node × Str
                 match mode with
                 | .pase 0 =>
                   ({ n with sessions := n.sessions.map (fun s => if s.id = sid then { s with mode := .pase idx, gen := f.gen } else s) },
-                   s!"ok{idx}")
+                   .okIdx idx)
                 | .pase _ =>
                   -- scopeguard (noc.rs:530): the fabric is removed again, the fail-safe context stays changed
-                  ({ n with fabrics := n.fabrics.filter (fun g => g.idx ≠ idx) }, "Invalid")
-                | .case _ => (n, s!"ok{idx}")
+                  ({ n with fabrics := n.fabrics.filter (fun g => g.idx ≠ idx) }, .err "Invalid")
+                | .case _ => (n, .okIdx idx)
   | .updnoc _ node ser =>
     match checkArmed n mode with
-    | some e => (n, e)
+    | some e => (n, .err e)
     | none =>
-      if !mode.isCase then (n, "GennCommInvalidAuthentication")
+      if !mode.isCase then (n, .err "GennCommInvalidAuthentication")
       else match n.fs with
-        | none => (n, "FailSafeRequired")
+        | none => (n, .err "FailSafeRequired")
         | some a =>
           match checkState a mode (fun f => f.updCsr) (fun f => f.root || f.addNoc || f.addCsr || f.updNoc) true with
-          | some e => (n, e)
+          | some e => (n, .err e)
           | none =>
             match getFabric n mode.fab with
-            | none => (n, "NotFound")
+            | none => (n, .err "NotFound")
             | some f =>
               let n := setFabric n { f with node := node, ser := ser }
               ok { n with fs := some { a with fab := f.idx, flags := { a.flags with updNoc := true } } }
   | .acl _ v =>
     -- acl.rs:306-440: change, then `persist.store` unless armed for this fabric
-    if mode.fab = 0 then (n, "UnsupportedAccess")
+    if mode.fab = 0 then (n, .err "UnsupportedAccess")
     else match getFabric n mode.fab with
-      | none => (n, "NotFound")
+      | none => (n, .err "NotFound")
       | some f =>
-        if f.acl.length ≥ cfg.maxAcl then (n, "ResourceExhausted")
+        if f.acl.length ≥ cfg.maxAcl then (n, .err "ResourceExhausted")
         else
           let f' := { f with acl := f.acl ++ [v] }
           let n := setFabric n f'
           if armedFor n f.idx then ok n
           else match storeFabric n f' with
             | (n, true) => ok n
-            | (n, false) => (n, "NoSpace")
+            | (n, false) => (n, .err "NoSpace")
   | .grp _ v =>
-    if mode.fab = 0 then (n, "UnsupportedAccess")
+    if mode.fab = 0 then (n, .err "UnsupportedAccess")
     else match getFabric n mode.fab with
-      | none => (n, "NotFound")
+      | none => (n, .err "NotFound")
       | some f =>
-        if !f.grp.contains v && f.grp.length ≥ maxGroups then (n, "ResourceExhausted")
+        if !f.grp.contains v && f.grp.length ≥ maxGroups then (n, .err "ResourceExhausted")
         else
           let f' := if f.grp.contains v then f else { f with grp := f.grp ++ [v] }
           let n := setFabric n f'
           if armedFor n f.idx then ok n
           else match storeFabric n f' with
             | (n, true) => ok n
-            | (n, false) => (n, "NoSpace")
+            | (n, false) => (n, .err "NoSpace")
   | .label _ v =>
-    -- noc.rs:636: `update_label`, no store at all
-    if mode.fab = 0 then (n, "UnsupportedAccess")
-    else if n.fabrics.any (fun g => g.idx ≠ mode.fab && g.label ≠ 0 && g.label = v) then (n, "Invalid")
+    -- noc.rs:636: `update_label`, then the same store rule as the other fabric-scoped writes
+    if mode.fab = 0 then (n, .err "UnsupportedAccess")
+    else if n.fabrics.any (fun g => g.idx ≠ mode.fab && g.label ≠ 0 && g.label = v) then (n, .err "Invalid")
     else match getFabric n mode.fab with
-      | none => (n, "NotFound")
-      | some f => ok (setFabric n { f with label := v })
+      | none => (n, .err "NotFound")
+      | some f =>
+        let f' := { f with label := v }
+        let n := setFabric n f'
+        if armedFor n f.idx then ok n
+        else match storeFabric n f' with
+          | (n, true) => ok n
+          | (n, false) => (n, .err "NoSpace")
   | .net _ v =>
     match checkArmed n mode with
-    | some e => (n, e)
+    | some e => (n, .err e)
     | none =>
       if n.nets.contains v then ok { n with managed := false }
-      else if n.nets.length ≥ maxNets then (n, "neterr")
+      else if n.nets.length ≥ maxNets then (n, .err "neterr")
       else ok { n with nets := n.nets ++ [v], managed := false }
   | .rmnet _ v =>
     match checkArmed n mode with
-    | some e => (n, e)
+    | some e => (n, .err e)
     | none =>
       if n.nets.contains v then ok { n with nets := n.nets.filter (· ≠ v), managed := false }
-      else (n, "neterr")
+      else (n, .err "neterr")
   | .complete _ =>
     -- gen_comm.rs:482: disarm, close the window, drop PASE, THEN store the fabric, THEN the networks
     match checkArmed n mode with
-    | some e => (n, e)
+    | some e => (n, .err e)
     | none =>
-      if !mode.isCase then (n, "GennCommInvalidAuthentication")
+      if !mode.isCase then (n, .err "GennCommInvalidAuthentication")
       else match getFabric n mode.fab with
-        | none => (n, "NotFound")
+        | none => (n, .err "NotFound")
         | some f =>
           let n := { n with fs := none, bc := 0, window := none, sessions := removePase n.sessions none }
           match storeFabric n f with
-          | (n, false) => (n, "NoSpace")
+          | (n, false) => (n, .err "NoSpace")
           | (n, true) =>
             let n := { n with managed := true }
             match storeNets n with
-            | (n, false) => (n, "NoSpace")
+            | (n, false) => (n, .err "NoSpace")
             | (n, true) => ok n
   | .rmfab _ idx =>
-    -- noc.rs:687: memory first (fabric, sessions, resumption records), then the store
-    if idx = 0 then (n, "ConstraintError")
+    -- noc.rs:687: memory first (fabric, sessions), the purged resumption cache, then the fabric key
+    if idx = 0 then (n, .err "ConstraintError")
     else if hasFabric n idx then
       let exp := if mode.fab = idx then some sid else none
       let n := { n with fabrics := n.fabrics.filter (fun f => f.idx ≠ idx),
-                        sessions := removeForFabric n.sessions idx exp,
-                        resum := n.resum.filter (fun r => r.fab ≠ idx) }
-      match removeFabricKey n idx with
-      | (n, true) => ok n
-      | (n, false) => (n, "NoSpace")
-    else (n, "InvalidFabricIndex")
+                        sessions := removeForFabric n.sessions idx exp }
+      match purgeResum n idx with
+      | (n, false) => (n, .err "NoSpace")
+      | (n, true) =>
+        match removeFabricKey n idx with
+        | (n, true) => ok n
+        | (n, false) => (n, .err "NoSpace")
+    else (n, .err "InvalidFabricIndex")
   | .revoke _ =>
     -- adm_comm.rs:255
     let exp := if mode.isPase then some sid else none
     match expire cfg n exp with
-    | (n, some e) => (n, e)
+    | (n, some e) => (n, .err e)
     | (n, none) => ok { n with window := none }
-  | _ => (n, "bad")
+  | _ => (n, .err "bad")
 
 def isSessOp : Op → Option Nat
   | .openW s | .arm s _ | .csr s _ | .root s _ | .addnoc s _ _ _ _ _ | .updnoc s _ _ | .acl s _
   | .grp s _ | .label s _ | .net s _ | .rmnet s _ | .complete s | .rmfab s _ | .revoke s => some s
   | _ => none
 
-def step (cfg : Cfg) (n : Node) (op : Op) : Node × String :=
+def step (cfg : Cfg) (n : Node) (op : Op) : Node × Status :=
   match isSessOp op with
   | some sid =>
     -- the command arrives on an exchange of session `sid`: `check_timeouts(Some(exch))` (im.rs:758),
     -- and an expired session accepts no new exchange (session.rs:540)
     match getSess n sid with
-    | none => (n, "nosess")
+    | none => (n, .err "nosess")
     | some _ =>
       match checkTimeouts cfg n (some sid) with
-      | (n, some e) => (n, "pre:" ++ e)
+      | (n, some e) => (n, .err ("pre:" ++ e))
       | (n, none) =>
         match getSess n sid with
-        | none => (n, "nosess")
-        | some s => if s.expired then (n, "expired") else sessOp cfg n sid s.mode op
+        | none => (n, .err "nosess")
+        | some s => if s.expired then (n, .err "expired") else sessOp cfg n sid s.mode op
   | none =>
     match op with
     | .boot =>
-      if n.window.isSome then (n, "Busy") else ok { n with window := some { opener := 0, expiry := n.now + 900 } }
+      if n.window.isSome then (n, .err "Busy") else ok { n with window := some { opener := 0, expiry := n.now + 900 } }
     | .pase =>
-      if n.window.isNone then (n, "nowin")
+      if n.window.isNone then (n, .err "nowin")
       else match addSess cfg n (.pase 0) 0 0 with
-        | (n, some id) => (n, s!"s{id}")
-        | (n, none) => (n, "NoSpaceSessions")
+        | (n, some id) => (n, .sess id)
+        | (n, none) => (n, .err "NoSpaceSessions")
     | .caseEst fab node rid =>
       -- responder.rs:440: the session and its resumption record
       match (if fab = 0 then none else getFabric n fab) with
-      | none => (n, "nofab")
+      | none => (n, .err "nofab")
       | some f =>
         match addSess cfg n (.case fab) node f.gen with
         | (n, some id) =>
-          ({ n with resum := resumInsert cfg n.resum { fab := fab, peer := node, rid := rid, gen := f.gen } }, s!"s{id}")
-        | (n, none) => (n, "NoSpaceSessions")
+          ({ n with resum := resumInsert cfg n.resum { fab := fab, peer := node, rid := rid, gen := f.gen } }, .sess id)
+        | (n, none) => (n, .err "NoSpaceSessions")
     | .resume rid newRid =>
       -- responder.rs:570-790: the record is looked up by id, the fabric by INDEX only
       match n.resum.find? (fun r => r.rid = rid) with
-      | none => (n, "norec")
+      | none => (n, .err "norec")
       | some r =>
-        if !hasFabric n r.fab then (n, "Invalid")
+        if !hasFabric n r.fab then (n, .err "Invalid")
         else match addSess cfg n (.case r.fab) r.peer r.gen with
-          | (n, some id) => ({ n with resum := resumInsert cfg n.resum { r with rid := newRid } }, s!"s{id}")
-          | (n, none) => (n, "NoSpaceSessions")
+          | (n, some id) => ({ n with resum := resumInsert cfg n.resum { r with rid := newRid } }, .sess id)
+          | (n, none) => (n, .err "NoSpaceSessions")
     | .tick secs => ok { n with now := n.now + secs }
     | .poll =>
       match checkTimeouts cfg n none with
-      | (n, some e) => (n, e)
+      | (n, some e) => (n, .err e)
       | (n, none) => ok n
     | .flush =>
       let (n, bad) := kvTick n
-      if bad then (n, "NoSpace") else ok (kvCommit n { n.kv with resum := .recs n.resum })
+      if bad then (n, .err "NoSpace") else ok (kvCommit n { n.kv with resum := .recs n.resum })
     | .restart => ok (restartFrom n n.kv n.hist)
     | .crash k =>
       let k := min k n.hist.length
@@ -615,7 +686,7 @@ def step (cfg : Cfg) (n : Node) (op : Op) : Node × String :=
         -- the network part of the reset still runs in the harness (im.rs:181)
         let n := { n with kv := kv, hist := hist, failIn := 0, nets := [], managed := false }
         let n := if n.kv.nets.isSome then kvCommit n { n.kv with nets := none } else n
-        (n, "NoSpace")
+        (n, .err "NoSpace")
       else
         let (kv, hist) := delFabricKeys 256 1 256 n.kv n.hist
         let n := { n with kv := kv, hist := hist, resum := [] }
@@ -623,7 +694,7 @@ def step (cfg : Cfg) (n : Node) (op : Op) : Node × String :=
         let n := { n with nets := [], managed := false }
         let n := if n.kv.nets.isSome then kvCommit n { n.kv with nets := none } else n
         ok n
-    | _ => (n, "bad")
+    | _ => (n, .err "bad")
 
 /-! ## canonical dump (must equal `World::dump` of the harness) -/
 
